@@ -75,6 +75,9 @@ from nucs.solvers.solver import Solver, decrease_max, get_solution, increase_min
 
 logger = logging.getLogger(__name__)
 
+STACK_SPARE_LEVEL_NB = 2  # the levels that a heuristic may add before the height of the stacks is checked
+STACK_MAX_HEIGHT_LIMIT = 256 - STACK_SPARE_LEVEL_NB
+
 
 class BacktrackSolver(Solver):
     """
@@ -121,9 +124,13 @@ class BacktrackSolver(Solver):
         self.consistency_alg_idx = consistency_alg_idx
         self.triggered_propagators = np.ones(problem.propagator_nb, dtype=np.bool)
         logger.debug("Initializing choice points")
-        self.shr_domains_stack = np.empty((stack_max_height, self.problem.shr_domain_nb, 2), dtype=np.int32)
-        self.not_entailed_propagators_stack = np.empty((stack_max_height, self.problem.propagator_nb), dtype=np.bool)
-        self.dom_update_stack = np.empty((stack_max_height, 2), dtype=np.uint16)
+        if not 0 < stack_max_height <= STACK_MAX_HEIGHT_LIMIT:  # the index of the top of the stacks is stored on 8 bits
+            raise ValueError(f"The maximal height of the stack must belong to [1, {STACK_MAX_HEIGHT_LIMIT}]")
+        # a heuristic adds at most STACK_SPARE_LEVEL_NB levels before solve_one checks the height of the stacks
+        stack_level_nb = stack_max_height + STACK_SPARE_LEVEL_NB
+        self.shr_domains_stack = np.empty((stack_level_nb, self.problem.shr_domain_nb, 2), dtype=np.int32)
+        self.not_entailed_propagators_stack = np.empty((stack_level_nb, self.problem.propagator_nb), dtype=np.bool)
+        self.dom_update_stack = np.empty((stack_level_nb, 2), dtype=np.uint16)
         self.stacks_top = np.ones((1,), dtype=np.uint8)
         logger.info(f"Choice points stack has a maximal height of {stack_max_height}")
         cp_init(
@@ -565,6 +572,8 @@ def solve_one(
                 stacks_top,
                 dom_idx,
             )
+            if stacks_top[0] >= len(shr_domains_stack) - STACK_SPARE_LEVEL_NB:
+                raise IndexError("The stack of choice points is full, stack_max_height should be increased")
             add_propagators(
                 triggered_propagators,
                 not_entailed_propagators_stack[stacks_top[0]],
